@@ -773,6 +773,13 @@ def run(ctx):
                 'incl. branch-cut and pole neighbourhoods, signed zeros; seeded random reals/complex incl. log-uniform magnitudes) x '
                 'wrong argument counts 1..4 x wrong shapes (vector, matrix, tensor, one-element arrays); exact/rounded array entries for '
                 'the matrix functions; a case is non-trivial when the call reaches the function body or an error class is decided')
+    import glob
+    import os
+    for stale in glob.glob(os.path.join(core.CASES, 'c15_*.v')):      # case files of earlier (larger) runs
+        try:
+            os.remove(stale)
+        except OSError:
+            pass
     cases = build_cases(ctx)
     thorough = ctx['tier'] == 'thorough' or ctx['escalate']
     pi_q = qlit(math.pi)
